@@ -30,13 +30,13 @@ func (g *FuncGen) value(v ssa.Value) Val {
 		if !isStructType(pt) && !isArrayType(pt) {
 			val.P = &PtrDesc{Kind: PCell, Base: t, Class: c.cellClass(pt), Elem: pt}
 		}
-		c.assert(fmt.Sprintf("(and (< 0 %s) (<= %s hwm@0) (= %s %s))", t, t, c.root(t), t))
+		c.global(func() { c.assert(fmt.Sprintf("(and (< 0 %s) (<= %s hwm@0) (= %s %s))", t, t, c.root(t), t)) })
 		g.vals[v] = val
 		return val
 	case *ssa.Function:
 		name := "fn_" + sanitize(k.String())
 		t := c.constant(name, SInt)
-		c.assert(fmt.Sprintf("(< 0 %s)", t))
+		c.global(func() { c.assert(fmt.Sprintf("(< 0 %s)", t)) })
 		val := Val{T: t, S: SInt, GT: k.Type(), Clo: &Closure{Fn: k}}
 		g.vals[v] = val
 		return val
@@ -320,7 +320,15 @@ func (g *FuncGen) alloc(x *ssa.Alloc) {
 	case isArrayType(pt):
 		at := pt.Underlying().(*types.Array)
 		if isStructType(at.Elem()) {
-			g.unsup("array of structs")
+			// elements live at interior references elemref(r, i); a literal's array is small: zero each element
+			if at.Len() > 64 {
+				g.unsup("array of more than 64 structs")
+			}
+			for i := int64(0); i < at.Len(); i++ {
+				g.zeroStruct(c.elemRef(r, c.intLit64(i, 64)), at.Elem())
+			}
+			g.set(x, Val{T: r, S: SInt, GT: x.Type()})
+			return
 		}
 		cl := c.elemClass(at.Elem())
 		g.heapStore(cl, r, fmt.Sprintf("((as const (Array %s %s)) %s)", c.intSort(64), c.sortOf(at.Elem()), c.zero(at.Elem())))
@@ -1071,10 +1079,9 @@ func (g *FuncGen) sliceOp(x *ssa.Slice) {
 		mx := get(x.Max, n)
 		g.nonNil(base, x, exprText(x.X))
 		g.safe("slice-bounds", x, and(g.le64(z, lo), g.le64(lo, hi), g.le64(hi, mx), g.le64(mx, n)), exprText(x.X))
-		if isStructType(at.Elem()) {
-			g.unsup("slice of array of structs")
+		if !isStructType(at.Elem()) {
+			c.elemClass(at.Elem())
 		}
-		c.elemClass(at.Elem())
 		r := fmt.Sprintf("(mk_slice %s %s %s %s)", base.T, lo, g.sub64(hi, lo), g.sub64(mx, lo))
 		g.define(x, r)
 	case *types.Basic: // string
